@@ -271,7 +271,15 @@ class World:
         if absent:
             self.count("refusals_injected")
             if st != "raised":
-                raise Violation("absent_key_assignment_not_refused", i, {"absent": absent[:5]})
+                # The property does not say that an assignment naming an absent key must be refused - only that
+                # the key set never changes and that assignment changes the addressed keys only.  If the library
+                # accepts it, the addressed present keys must hold their new values (the audit then checks that
+                # nothing else changed and that no key appeared).
+                self.count("absent_key_assignments_accepted")
+                for j, kk in enumerate(keys):
+                    if kk in model:
+                        model[kk] = _pyval(per[j]) if per is not None else _pyval(val)
+                return
             self.count("refusals_observed")
             # narrow relaxation: each addressed present key holds its old or its new value
             got = self._peek(self.h[hname])
